@@ -106,6 +106,7 @@ def tls_wrap(s):
     return ssl.create_default_context(cafile=f'{CERTS}/ca.crt').wrap_socket(s, server_hostname='localhost')
 
 SEQ = itertools.count()
+BANNER_FAILS = [0]
 
 class Conn:
     """one client connection and what it actually did"""
@@ -196,9 +197,14 @@ class Conn:
                 self.terminal = '?'
                 return False
             self.connector = 'fakeh' if k.endswith('http') else 'fakes'
-            banner = self.rest + recv_exact(self.sock, 43 - len(self.rest), 5)
+            # (on a tree that loses these bytes every such connection would wait out its deadline: after three
+            # failures the deadline shrinks, the verdict is the same)
+            dl = 5 if BANNER_FAILS[0] < 3 else 0.3
+            banner = self.rest + recv_exact(self.sock, 43 - len(self.rest), dl)
             self.sock.sendall(b'x' * 1000)
-            got = recv_exact(self.sock, 1000, 5)
+            got = recv_exact(self.sock, 1000, dl)
+            if len(banner) != 43 or len(got) != 1000:
+                BANNER_FAILS[0] += 1
             self.up, self.down = 1000, len(banner) + len(got)
             if banner != b'B' * 43 or len(got) != 1000:
                 self.note = f'banner {banner[:10]!r} / echo {len(got)}'
@@ -574,6 +580,30 @@ def run_config(hsize, splice):
         ended += burst
         segments.append(burst)
         checkpoint(px, cfgname, hsize, ended, segments, judged)
+    # (3b) several hundred connections that end within one collector pass (the queue between the collector and the log
+    #      task holds 100 records): established tunnels, connections that never sent their handshake, denied requests
+    mass = []
+    M = 360 if THOROUGH else 300
+    def opener(i):
+        l = ('http', 'socks5', 'https', 'socks4')[i % 4]
+        k = ('hold', 'eof', 'hold')[i % 3] if l != 'https' else 'hold'
+        c = Conn(p, l, k)
+        try:
+            c.open()
+        except Exception as e:
+            c.note = f'client exception {e!r}'
+        return c
+    opened = [c for c in run_parallel(list(range(M)), opener, workers=16) if isinstance(c, Conn) and c.source]
+    time.sleep(1.2)      # a pass of the collector with all of them open
+    for c in opened:
+        c.close()
+    t_end = time.time()
+    for c in opened:
+        wait_gone(px, c, max(0.2, 4.0 - (time.time() - t_end)))
+    mass = opened
+    ended += mass
+    segments.append(mass)
+    checkpoint(px, cfgname, hsize, ended, segments, judged)
     # (4) back-pressure: 6 MiB pushed at an origin that reads late and slowly (short writes on the upstream leg)
     for l in ('http', 'socks5'):
         c = one(l, 'slow-bulk')
@@ -597,6 +627,6 @@ for o in (echo, echo2, echo3, bye, sink, fakeh, fakes):
 if evals < 300 or len(distinct) < 30:
     machinery(f'vacuous: evals={evals} distinct={len(distinct)}')
 cov = {'evaluations': evals, 'distinct_nontrivial': len(distinct), 'transitions': evals, 'traces_validated_against_impl': evals, 'connections': sum(r for r in results),
-       'rule': f'per configuration (historySize, useSplice) in {configs}: one long history on the real binary: (1) ordered pairs over the alphabet {KINDS} x [http, https, socks5, socks4, reverse] (quick: every operation after every fifth one; thorough: all pairs), strictly sequential; (2) trios held open together and closed in all 6 orders with /live compared at each step; (4) 6 MiB pushed at an origin with an 8 KiB receive buffer that reads late and in 3000-byte pieces (byte counters under back-pressure, both I/O modes); (3) two bursts of concurrent mixed connections with the access log renamed and reopened (POST /logrotate, SIGUSR1) three times in the middle. Checkpoints compare /live, /history (length, newest-first by known end order, distinct ids) and the access log files (exactly one line per connection, truthful listener/source/target/connector, lifecycle grammar with one terminal state, byte counters) with what clients and origins did',
+       'rule': f'per configuration (historySize, useSplice) in {configs}: one long history on the real binary: (1) ordered pairs over the alphabet {KINDS} x [http, https, socks5, socks4, reverse] (quick: every operation after every fifth one; thorough: all pairs), strictly sequential; (2) trios held open together and closed in all 6 orders with /live compared at each step; (4) 6 MiB pushed at an origin with an 8 KiB receive buffer that reads late and in 3000-byte pieces (byte counters under back-pressure, both I/O modes); (3) two bursts of concurrent mixed connections with the access log renamed and reopened (POST /logrotate, SIGUSR1) three times in the middle; (3b) 300 connections (held tunnels and silent connections on four listeners) closed within one collector pass. Checkpoints compare /live, /history (length, newest-first by known end order, distinct ids) and the access log files (exactly one line per connection, truthful listener/source/target/connector, lifecycle grammar with one terminal state, byte counters) with what clients and origins did',
        'schedule_control': 'kernel', 'samples': samples}
 sys.exit(chk.finish('model_checking', cov, ['E4 part: real loopback sockets, kernel scheduling uncontrolled; buffered log lines are flushed by a reopen before the log is read; connections are matched to records by listener + client address; UDP sessions and QUIC/TPROXY listeners are not part of this history']))
